@@ -197,3 +197,59 @@ func verifHarness_C16_request(known int, other int) {
 	verifAssert(ok && o.Equal(otherTime), "C16/S2/other-senders-untouched")
 	verifReach("C16/S2")
 }
+
+// S3: two heartbeats in a row. same 1: from the same (channel, system, component); 0: the second from another
+// component of the same system. The first always triggers (table empty); the second triggers again iff it is a
+// different sender or at least 30 s have passed between the two clock readings.
+func verifHarness_C16_two(same int) {
+	defer verifPatchClock()()
+	d := verifDialectKind(1)
+	n := verifBareNode(V2, 1, 1)
+	n.Dialect = d
+	n.StreamRequestEnable = true
+	n.StreamRequestFrequency = 4
+	n.dialectRW = &dialect.ReadWriter{Dialect: d}
+	verifAssert(n.dialectRW.Initialize() == nil, "C16/S3/dialect")
+	sr := &nodeStreamRequest{node: n}
+	verifAssert(sr.initialize() == nil, "C16/S3/enabled")
+	verifChanSink(n.chWriteTo)
+	verifChanSink(n.chEvent)
+	ch := verifBareChannel(n)
+	sys, comp, comp2 := verifNondetU8(), verifNondetU8(), verifNondetU8()
+	if same == 1 {
+		comp2 = comp
+	} else {
+		verifAssume(comp2 != comp)
+	}
+	hb := func(c byte) *EventFrame {
+		return &EventFrame{Frame: &frame.V2Frame{SystemID: sys, ComponentID: c,
+			Message: &minimal.MessageHeartbeat{Autopilot: 3}}, Channel: ch}
+	}
+	sr.onEventFrame(hb(comp))
+	verifAssert(len(n.chWriteTo) == 7 && len(n.chEvent) == 1, "C16/S3/first-heartbeat-triggers")
+	t1 := verifClockLast()
+	for len(n.chWriteTo) > 0 {
+		<-n.chWriteTo
+	}
+	<-n.chEvent
+	before := verifClockReadings()
+	sr.onEventFrame(hb(comp2))
+	t2 := verifClockLast()
+	again := same == 0
+	if same == 1 && verifClockReadings() > before {
+		// the reading taken first in the second call decides
+		again = verifBranch(verifClockReadingAt(before)-t1 >= 30000000000)
+	}
+	_ = t2
+	if again {
+		verifAssert(len(n.chWriteTo) == 7 && len(n.chEvent) == 1, "C16/S3/second-triggers-when-due-or-new-sender")
+		for len(n.chWriteTo) > 0 {
+			req := <-n.chWriteTo
+			raw := req.what.(*message.MessageRaw)
+			verifAssert(req.ch == ch && raw.ID == 66, "C16/S3/request-on-the-senders-channel")
+		}
+	} else {
+		verifAssert(len(n.chWriteTo) == 0 && len(n.chEvent) == 0, "C16/S3/not-repeated-within-30-seconds")
+	}
+	verifReach("C16/S3")
+}
